@@ -447,4 +447,5 @@ def run(ctx):
     from . import c04
     from .common import shared
 
+    shared(ctx, "C08.c", c04.rule_c, why="the reduced formulations slice the divergence / constraint blocks out of the assembled operators: all formulations solve one system only if every assembled operator carries the same, unscaled, rows")
     shared(ctx, "C08.d", c04.rule_g, why="reuse_solver=True applies the cached factorisation to whatever matrix is passed: every caller must have set a fresh solver up for that matrix")
